@@ -65,6 +65,18 @@ def handler(case, payload):
         return out
     recs.append([0, snap(w)])
     for op in case['ops']:
+        if case.get('siblings'):
+            # OTHER children are derived from the same node object first (a public soft child, a private child, a path
+            # below it) and thrown away: deriving must not change the node it starts from
+            for args in ((3, False, False), (1, True, False), (2, True, True)):
+                try:
+                    w.derive(args[0], private=args[1], hardened=args[2])
+                except Exception:
+                    pass
+            try:
+                w.derive_from_path('m/0/1', private=False)
+            except Exception:
+                pass
         try:
             if op[0] == 'derive':
                 w2 = w.derive(op[1], private=op[2], hardened=op[3])
